@@ -54,7 +54,7 @@ def emptySt (cached : Bool) : St (BV A R C I) :=
   ⟨[.free 0 65535], [], [], cached, [], [], 9, 0, 0⟩
 
 /-- everything a builder writes is serialisable -/
-def params : Params (BV A R C I) := ⟨fun _ => true, .xref⟩
+def params : Params (BV A R C I) := ⟨fun _ => true, fun _ => .xref, fun _ _ _ => .xref⟩
 
 /-- `pages.iter().map(|_| update.promise()).collect()` -/
 def promiseN (st : St (BV A R C I)) : Nat → St (BV A R C I) × List Nat
